@@ -149,3 +149,18 @@ def r_as_quantity(qn, sig, x) -> bool:
     if type(r) is not Q or r.si != float(x):
         return rt.fail("C16:as_quantity-value", f"{r!r}")
     return True
+
+
+def r_reuse(bn, op) -> bool:
+    """a generic SI value used twice as left operand gives the same result twice and is itself unchanged"""
+    B = _cls(bn)
+    s = U.SI(2.0, "m")
+    sig0, unit0 = list(s.sisig()), s.unit
+    b = B(3.0)
+    r1 = s * b if op == "mul" else s / b
+    r2 = s * b if op == "mul" else s / b
+    if list(s.sisig()) != sig0 or s.unit != unit0:
+        return rt.fail("C16:operand-modified-by-operator", f"SI(2,'m') {op} {bn}(3): signature {sig0} -> {list(s.sisig())}")
+    if list(r1.sisig()) != list(r2.sisig()) or r1.si != r2.si:
+        return rt.fail("C16:same-operation-twice-gives-different-results", f"{r1!r} vs {r2!r}")
+    return True
